@@ -213,6 +213,24 @@ pub fn check_monotone(rep: &mut Rep, mut v: Vec<i128>) {
     }
 }
 
+/// number of significant decimal digits of the exact decimal expansion of a finite non-zero double with a fractional
+/// part (m odd x 2^-k = m x 5^k / 10^k: the digits of m x 5^k), estimated in floating point (only compared against 16)
+pub fn decimal_digits_of(q: f64) -> u32 {
+    let (mut m, mut e) = flt::decompose(q);
+    m = m.abs();
+    if m == 0 || e >= 0 {
+        return 1;
+    }
+    while m % 2 == 0 && e < 0 {
+        m /= 2;
+        e += 1;
+    }
+    if e >= 0 {
+        return 1;
+    }
+    ((m as f64).log10() + (-e) as f64 * 5f64.log10()).floor() as u32 + 1
+}
+
 pub fn check_mulf(rep: &mut Rep, d: Duration, q: f64) {
     if !rep.tick() {
         return;
@@ -234,6 +252,7 @@ pub fn check_mulf(rep: &mut Rep, d: Duration, q: f64) {
     let approx = c as f64 * q;
     let (lo, hi): (i128, i128); // accepted interval for the result count
     let integer_exact;
+    let mut whole_fractional = false;
     match pm {
         None => {
             rep.class("mulf/skip-overflow");
@@ -264,8 +283,15 @@ pub fn check_mulf(rep: &mut Rep, d: Duration, q: f64) {
                 Some(fl) => {
                     let tol = 2 + (8.0 * flt::ulp(approx)).ceil() as i128;
                     integer_exact = q.fract() == 0.0 && fl.abs() < (1 << 53) && e >= 0;
+                    // the real product count x q is a whole number of nanoseconds below 2^53: exact ("behaves likewise")
+                    whole_fractional = !integer_exact && e < 0 && -e < 127 && (pm >> (-e)) << (-e) == pm && fl.abs() < (1 << 53);
                     if integer_exact {
                         rep.class("mulf/integer-q-exact");
+                        lo = fl;
+                        hi = fl;
+                    } else if whole_fractional {
+                        rep.class("mulf/whole-product-fractional-q");
+                        nt = true;
                         lo = fl;
                         hi = fl;
                     } else {
@@ -291,7 +317,13 @@ pub fn check_mulf(rep: &mut Rep, d: Duration, q: f64) {
                 let gp = g.to_parts();
                 let gc = count(gp);
                 if !is_canonical(gp) || gc < lo || gc > hi {
-                    let f = if q != 0.0 && q.abs() < f64::EPSILON && gc == 0 { Some("F23-mulf-tiny-factor") } else { None };
+                    let mut f = if q != 0.0 && q.abs() < f64::EPSILON && gc == 0 { Some("F23-mulf-tiny-factor") } else { None };
+                    // known finding F26: the factor is expanded in decimal and cut after what an f64 holds of it (about 16
+                    // significant digits), so with a factor that is not a short decimal a whole product comes out exactly
+                    // one nanosecond closer to zero
+                    if whole_fractional && is_canonical(gp) && gc == lo - lo.signum() && decimal_digits_of(q) >= 16 {
+                        f = Some("F26-mulf-long-decimal-factor");
+                    }
                     rep.fail(&format!("{name}/value"), f, || format!("{} * {} = {} (count {}), want count in [{lo},{hi}] (integer-exact: {integer_exact})", fmt_parts(p), fmt_f64(q), fmt_parts(gp), gc));
                 }
             }
@@ -494,6 +526,20 @@ pub fn run(cfg: &Cfg, rep: &mut Rep) {
                         }
                     }
                     8 => r.range_i64(-(1 << 53), 1 << 53) as f64,
+                    9 if r.bool() => {
+                        // dyadic factor i / 2^k on a duration that is a multiple of 2^k ns: the product is a whole number
+                        let k = 1 + r.below(62) as u32;
+                        let j = r.range_i64(1, 1 << 12) as i128;
+                        let i2 = (2 * r.range_i64(0, 1 << 9) + 1) as f64;
+                        let mut dd = j << k;
+                        while dd > ten_ky {
+                            dd >>= 1; // duration x float is quantified up to 10 000 years
+                        }
+                        let dd = if r.bool() { -dd } else { dd };
+                        let q2 = i2 * 2f64.powi(-(k as i32)) * if r.chance(1, 4) { -1.0 } else { 1.0 };
+                        check_mulf(rep, mk(dd), q2);
+                        1.0 / r.range_i64(1, 1000) as f64
+                    }
                     9 => 1.0 / r.range_i64(1, 1000) as f64,
                     _ => (r.f64_unit() - 0.5) * 2000.0,
                 };
